@@ -279,6 +279,10 @@ def cli_main():
         while state == STATE_DFU_DNBUSY:
             status, state = dfu_get_status(dev)
 
+        if status != STATUS_OK:
+            print()
+            raise SystemExit('error setting address: {}'.format(STATUS_DESCRIPTION.get(status, status)))
+
         # write the code chunk
         dfuse_download(dev, code)
 
